@@ -1521,3 +1521,121 @@ func c16ReplyClassRewrittenForRcptOnly(c *Check, rule string) {
 		c.HoldConst(rule, "smtpconn:no-code-rewrite", token.NoPos, true, "")
 	}
 }
+
+// c16AuthRepliesAreSMTPErrors: the SMTP library answers an error of the SASL exchange that is not an *smtp.SMTPError
+// with `454 4.7.0 <err.Error()>` – a temporary class and the raw text. The provider-independent SASL server of
+// internal/auth returns the sentinel "auth: invalid credentials" for a wrong password: handed to the library as it is,
+// a permanent failure is answered with 4yz (and any other error would be sent verbatim). Session.Auth therefore does
+// not return the result of CreateSASL itself but a server of the endpoint's own whose Next turns every error into an
+// *smtp.SMTPError.
+func c16AuthRepliesAreSMTPErrors(c *Check, rule string) {
+	c.Rule(rule, "SMTP endpoint AUTH: the SASL server handed to the library is the endpoint's own wrapper, and every error its Next returns is an *smtp.SMTPError built there (the library would answer anything else with `454 4.7.0` and the raw error text: a wrong password would be a temporary failure)", 1)
+	r := c.need(rule, smtpEndpRel, "Session", "Auth")
+	if r == nil {
+		return
+	}
+	info := r.Info
+	n := 0
+	for _, pt := range r.F.Points() {
+		ret, ok := pt.Node().(*ast.ReturnStmt)
+		if !ok || len(ret.Results) != 2 {
+			continue
+		}
+		if isNilIdent(info, ret.Results[0]) {
+			continue
+		}
+		n++
+		key := "Session.Auth:server" + itoa(n)
+		t := info.TypeOf(ret.Results[0])
+		nt := namedOf(t)
+		if nt == nil || nt.Obj().Pkg() == nil || nt.Obj().Pkg() != r.FI.Pkg.Types {
+			c.Hold(rule, key, ret.Pos(), false, "Auth hands the library the SASL server of internal/auth as it is: its errors are plain values (`auth: invalid credentials`), which the library answers with `454 4.7.0 auth: invalid credentials` – a wrong password is reported as a temporary failure, indistinguishable from an unavailable backend, and the text sent is whatever err.Error() says")
+			continue
+		}
+		// the wrapper's Next
+		var next *FuncInfo
+		for _, fi := range funcsOfPkgs(c.P, smtpEndpRel) {
+			if fi.Decl.Recv != nil && recvTypeName(fi.Decl) == nt.Obj().Name() && fi.Obj.Name() == "Next" {
+				next = fi
+			}
+		}
+		if next == nil || next.Decl.Body == nil {
+			c.Hold(rule, key, ret.Pos(), false, "the server type returned by Auth ("+nt.Obj().Name()+") has no Next of its own: errors of the embedded SASL server reach the library unconverted")
+			continue
+		}
+		c.SawFunc(next.Name())
+		ni := next.Info()
+		msg := ""
+		isSMTPErr := func(e ast.Expr) bool {
+			t := ni.TypeOf(e)
+			return t != nil && typeIs(t, "github.com/emersion/go-smtp", "SMTPError")
+		}
+		var okExpr func(e ast.Expr, depth int) bool
+		okExpr = func(e ast.Expr, depth int) bool {
+			e = ast.Unparen(e)
+			if isNilIdent(ni, e) {
+				return true
+			}
+			if isSMTPErr(e) {
+				return true
+			}
+			if call, ok := e.(*ast.CallExpr); ok && depth < 3 {
+				if d := c.P.DeclOf(callee(ni, call)); d != nil && d.Decl.Body != nil && d.Pkg == next.Pkg {
+					all, k := true, 0
+					inspectNoLit(d.Decl.Body, func(x ast.Node) bool {
+						if rs, ok := x.(*ast.ReturnStmt); ok && len(rs.Results) > 0 {
+							k++
+							last := ast.Unparen(rs.Results[len(rs.Results)-1])
+							t := d.Info().TypeOf(last)
+							if !(isNilIdent(d.Info(), last) || (t != nil && typeIs(t, "github.com/emersion/go-smtp", "SMTPError"))) {
+								all = false
+							}
+						}
+						return true
+					})
+					return all && k > 0
+				}
+			}
+			if id, ok := e.(*ast.Ident); ok {
+				// a local: every value assigned to it
+				o := objOf(ni, id)
+				all, k := true, 0
+				ast.Inspect(next.Decl.Body, func(x ast.Node) bool {
+					if as, ok := x.(*ast.AssignStmt); ok && len(as.Lhs) == len(as.Rhs) {
+						for i, l := range as.Lhs {
+							if objOf(ni, l) == o {
+								k++
+								if !okExpr(as.Rhs[i], depth+1) {
+									all = false
+								}
+							}
+						}
+					} else if ok && len(as.Rhs) == 1 {
+						for _, l := range as.Lhs {
+							if objOf(ni, l) == o {
+								k++
+								all = false
+							}
+						}
+					}
+					return true
+				})
+				return all && k > 0
+			}
+			return false
+		}
+		inspectNoLit(next.Decl.Body, func(x ast.Node) bool {
+			if rs, ok := x.(*ast.ReturnStmt); ok && len(rs.Results) > 0 {
+				last := rs.Results[len(rs.Results)-1]
+				if !okExpr(last, 0) {
+					msg = "Next can return an error that is not an *smtp.SMTPError (" + exprStr(last) + "): the library answers it with `454 4.7.0` and the raw text"
+				}
+			}
+			return true
+		})
+		c.Hold(rule, key, ret.Pos(), msg == "", msg)
+	}
+	if n == 0 {
+		c.Fail(rule, "Session.Auth:returns", r.FI.Decl.Pos(), "undecided: Auth returns no server")
+	}
+}
